@@ -7,7 +7,7 @@ import itertools
 
 import numpy as np
 
-from harness import curves, numeric, par, simpl
+from harness import curves, numeric, par, simpl, static_cases
 
 
 def _record(item):
@@ -104,11 +104,13 @@ def run(ctx):
     rec = par.pmap(_record, items)
     cases = [c for c, _ in rec]
     meta = {c["id"]: m for c, m in rec}
-    good = next(c for c in cases if c["outcome"] == "returned" and len(c["reduced"]) >= 3)
+    good = static_cases.get("C01")
     c1 = dict(good, reduced=good["reduced"][:-1] + [good["reduced"][-2]])     # duplicate index
     c2 = dict(good, outcome="budget")
     c3 = dict(good, removed=[[r[0], r[1] + 1] for r in good["removed"]])
-    rej = ctx.trace("Trace_Simplify", cases, selftest=[(c1, None), (c2, "terminates"), (c3, "removed-counts")])
+    c4 = dict(good, steps=10 * good["n"])
+    rej = ctx.trace("Trace_Simplify", cases, selftest=[(good, "ok"), (c1, None), (c2, "terminates"),
+                                                       (c3, "removed-counts"), (c4, "step-bound")])
     for c in cases:
         ctx.count((c["f"], meta[c["id"]]["points"], meta[c["id"]]["spec"]), c["n"] >= 3 and c["outcome"] == "returned")
     for cid, vs in rej.items():
